@@ -165,7 +165,42 @@ func (h *harness) validStep(path string) bool {
 	// block sync normally announces the header first; after a header-only mutant took the slot in
 	// the header index the block itself still has to be committable
 	withHeader := h.main.Store.GetCurrentHeaderHeight() == h.main.Store.GetCurrentBlockHeight()
-	errs := h.submit(h.main, blk, res, path, withHeader)
+	var errs []string
+	if path == "concurrent" {
+		// the same valid block arrives from several sources at once (consensus seal twice + block sync):
+		// it must be committed exactly once, the other submissions change nothing
+		var wg sync.WaitGroup
+		var emu sync.Mutex
+		start := make(chan struct{})
+		for g := 0; g < 3; g++ {
+			wg.Add(1)
+			go func(g int) {
+				defer wg.Done()
+				<-start
+				var err error
+				if g == 2 {
+					err = h.main.Store.AddBlock(blk, res.MerkleRoot)
+				} else {
+					err = h.main.Store.SubmitBlock(blk, res)
+				}
+				if err != nil {
+					emu.Lock()
+					errs = append(errs, fmt.Sprintf("submitter %d: %v", g, err))
+					emu.Unlock()
+				}
+			}(g)
+		}
+		close(start)
+		wg.Wait()
+		if len(errs) > 0 {
+			// an error for the submissions that lost the race is tolerated (changes nothing); the block
+			// itself must be committed, which is checked below
+			r.Count("concurrent_duplicate_submission_errors", len(errs))
+			errs = nil
+		}
+	} else {
+		errs = h.submit(h.main, blk, res, path, withHeader)
+	}
 	r.Eval(1)
 	r.Distinct("valid", path, len(txs), withHeader, h.tip())
 	st := h.main.Store
@@ -190,6 +225,14 @@ func (h *harness) validStep(path string) bool {
 		}
 		if err := h.twin.Store.SubmitBlock(blk, res2); err != nil || h.twin.Store.GetCurrentBlockHash() != blk.Hash() {
 			r.Violation("rejected-submission-changed-accumulator", fmt.Sprintf("height %d: a ledger that never saw the rejected submissions refuses the block built on the main ledger: %v", blk.Header.Height, err), ctx)
+			return false
+		}
+		// the ledger that committed the block exactly once stores the same state root for this height
+		a, errA := st.GetStateMerkleRoot(blk.Header.Height)
+		b, errB := h.twin.Store.GetStateMerkleRoot(blk.Header.Height)
+		if errA != nil || errB != nil || a != b || a != res.MerkleRoot {
+			r.Violation("committed-state-root-differs-from-single-commit", fmt.Sprintf("height %d via %s: stored state root %x (err %v); a ledger that committed the block once stores %x (err %v); executed root %x",
+				blk.Header.Height, path, a[:6], errA, b[:6], errB, res.MerkleRoot[:6]), ctx)
 			return false
 		}
 		r.Count("twin_agreements", 1)
@@ -442,7 +485,7 @@ func openPair(r *kit.Run, name string, withTwin bool) (*harness, func()) {
 func TestC13(t *testing.T) {
 	r := kit.Start(t, "C13", "exploration")
 	defer r.Finish()
-	r.Rule("sequences of 12 submissions on real ledgers (a fresh ledger every 25 sequences): each submission is the valid successor (38%), one of 14 mutant kinds, or a 3-step scenario (a header of 7 refused kinds offered through AddHeaders, the honest block, then a quorum-signed child naming the refused header as parent with a block root computed over it), pushed through ExecuteBlock+SubmitBlock or AddHeaders+AddBlock; evaluation = one submission; distinct = (kind, path, refused-with-error?, tx count, tip height)")
+	r.Rule("sequences of 12 submissions on real ledgers (a fresh ledger every 25 sequences): each submission is the valid successor (38%; a quarter of them handed in by three goroutines at once: 2x SubmitBlock + AddBlock of the same block), one of 14 mutant kinds, or a 3-step scenario (a header of 7 refused kinds offered through AddHeaders, the honest block, then a quorum-signed child naming the refused header as parent with a block root computed over it), pushed through ExecuteBlock+SubmitBlock or AddHeaders+AddBlock; evaluation = one submission; distinct = (kind, path, refused-with-error?, tx count, tip height)")
 	r.Assume("'changes the ledger' = current block height/hash, state root, lookups of committed blocks/transactions, and the accumulators as observed through a twin ledger; a header accepted by AddHeaders without its block is not a commit")
 	r.Assume("a submission at an already committed height may return nil (ignored) or an error; both count as 'changes nothing'")
 	nSeq := r.N(200, 10000)
@@ -460,6 +503,9 @@ func TestC13(t *testing.T) {
 			path := []string{"consensus", "sync"}[h.rng.Intn(2)]
 			ok := true
 			if x := h.rng.Intn(100); x < 38 {
+				if x < 10 {
+					path = "concurrent"
+				}
 				ok = h.validStep(path)
 			} else if x < 46 {
 				ok = h.staleHeaderScenario(staleHeaderKinds[h.rng.Intn(len(staleHeaderKinds))], path)
@@ -488,8 +534,9 @@ func TestC13(t *testing.T) {
 	r.Require("stale_header_refused", nSeq/3)
 	r.Require("stale_header_child_consensus", nSeq/8)
 	r.Require("stale_header_child_sync", nSeq/8)
-	r.Require("accepted_consensus", nSeq)
-	r.Require("accepted_sync", nSeq)
+	r.Require("accepted_concurrent", nSeq/2)
+	r.Require("accepted_consensus", nSeq/2)
+	r.Require("accepted_sync", nSeq/2)
 	r.Require("twin_agreements", nSeq*2)
 	r.Require("tx_lookups", nSeq)
 }
@@ -567,6 +614,9 @@ func TestC13Race(t *testing.T) {
 		close(start)
 		path := []string{"consensus", "sync"}[h.rng.Intn(2)]
 		if h.rng.Intn(100) < 50 {
+			if os.Getenv("C13_RACE_CONCURRENT") != "" && i%3 == 0 {
+				path = "concurrent" // experiment only: overlapping SubmitBlock/AddBlock under the race detector
+			}
 			h.validStep(path)
 		} else {
 			h.mutantStep(mutantKinds[h.rng.Intn(len(mutantKinds))], path)
